@@ -61,6 +61,34 @@ public:
   }
 
   /**
+   * @return the aggregation that Set() for these attributes would replace: the one stored for
+   * them or, when the map is full and they are not present, the overflow aggregation (if any).
+   * Merging into it before Set() keeps what was folded into the overflow series earlier.
+   */
+  Aggregation *GetForMerge(const MetricAttributes &attributes) const
+  {
+    auto it = hash_map_.find(attributes);
+    if (it != hash_map_.end())
+    {
+      return it->second.get();
+    }
+    if (IsOverflowAttributes())
+    {
+      auto overflow = hash_map_.find(kOverflowAttributes);
+      if (overflow != hash_map_.end())
+      {
+        return overflow->second.get();
+      }
+    }
+    return nullptr;
+  }
+
+  /**
+   * @return the cardinality limit of this map
+   */
+  size_t GetAttributesLimit() const { return attributes_limit_; }
+
+  /**
    * @return check if key is present in hash
    *
    */
